@@ -28,12 +28,21 @@ pub fn run_bigcap(mode: u64) -> Report {
         Err(c) => fail(&mut rep, format!("with_capacity(2^24+1): unexpected panic {}", c.msg())),
         Ok(_) => fail(&mut rep, "with_capacity(2^24+1) did not panic".into()),
     }
-    let mut w = if mode == 0 {
-        BigWorld::with_capacity(BigWorldCapacity { big: MAX, cyc: 0 })
-    } else if mode == 1 {
-        BigWorld::with_capacity(BigWorldCapacity { big: MAX - 1, cyc: 0 })
-    } else {
-        BigWorld::new()
+    let built = guard(|| {
+        if mode == 0 {
+            BigWorld::with_capacity(BigWorldCapacity { big: MAX, cyc: 0 })
+        } else if mode == 1 {
+            BigWorld::with_capacity(BigWorldCapacity { big: MAX - 1, cyc: 0 })
+        } else {
+            BigWorld::new()
+        }
+    });
+    let mut w = match built {
+        Ok(w) => w,
+        Err(c) => {
+            fail(&mut rep, format!("mode {mode}: constructing a world with a legal initial capacity (<= 2^24) panicked: {}", c.msg()));
+            return rep;
+        }
     };
     let cap0 = w.big.capacity();
     if mode == 0 && cap0 != MAX {
@@ -54,7 +63,13 @@ pub fn run_bigcap(mode: u64) -> Report {
                 }
             }
         } else {
-            w.create::<Big>((Tiny(i as u8),))
+            match guard(|| w.create::<Big>((Tiny(i as u8),))) {
+                Ok(e) => e,
+                Err(c) => {
+                    fail(&mut rep, format!("create panicked at len {i} < 2^24 (capacity {}): {}", w.big.capacity(), c.msg()));
+                    return rep;
+                }
+            }
         };
         if i == 0 {
             first = Some(e);
